@@ -22,6 +22,7 @@ struct Merged {
     counters: BTreeMap<String, u64>,
     maxes: BTreeMap<String, u64>,
     sets: BTreeMap<String, BTreeSet<String>>,
+    bitsets: BTreeMap<String, Vec<u64>>,
     samples: Vec<Value>,
     violations: Vec<Violation>,
     inconclusive: Vec<String>,
@@ -51,6 +52,17 @@ fn merge_report(m: &mut Merged, path: &Path) -> Result<(), String> {
             for s in arr.as_array().into_iter().flatten() {
                 if e.len() < 400 {
                     e.insert(s.as_str().unwrap_or("").to_owned());
+                }
+            }
+        }
+    }
+    if let Some(o) = v["bitsets"].as_object() {
+        for (k, arr) in o {
+            let words: Vec<u64> = arr.as_array().map(|a| a.iter().map(|x| x.as_u64().unwrap_or(0)).collect()).unwrap_or_default();
+            let e = m.bitsets.entry(k.clone()).or_insert_with(|| vec![0; words.len()]);
+            for (i, w) in words.iter().enumerate() {
+                if i < e.len() {
+                    e[i] |= w;
                 }
             }
         }
@@ -186,6 +198,7 @@ pub fn run(prop: &Property, tier: Tier, seed: u64, shards_override: Option<usize
         counters: BTreeMap::new(),
         maxes: BTreeMap::new(),
         sets: BTreeMap::new(),
+        bitsets: BTreeMap::new(),
         samples: Vec::new(),
         violations: Vec::new(),
         inconclusive: Vec::new(),
@@ -292,6 +305,11 @@ pub fn run(prop: &Property, tier: Tier, seed: u64, shards_override: Option<usize
         }
     }
 
+    // a bitset population can serve as a required observation: expose it next to the maxima
+    let bit_counts: BTreeMap<String, u64> = merged.bitsets.iter().map(|(k, v)| (k.clone(), v.iter().map(|w| w.count_ones() as u64).sum())).collect();
+    for (k, n) in &bit_counts {
+        merged.maxes.insert(format!("bits_{k}"), *n);
+    }
     let distinct = merged.sigs.len() as u64;
     let min_needed = (prop.min_nontrivial)(tier);
     let mut missing_counters = Vec::new();
@@ -353,6 +371,7 @@ pub fn run(prop: &Property, tier: Tier, seed: u64, shards_override: Option<usize
     coverage.insert("observed_counters".into(), json!(merged.counters));
     coverage.insert("observed_maxima".into(), json!(merged.maxes));
     coverage.insert("observed_sets".into(), json!(merged.sets));
+    coverage.insert("observed_bitset_population".into(), json!(bit_counts));
     coverage.insert("shards".into(), json!(nshards));
     if !inconclusive_reasons.is_empty() || !merged.inconclusive.is_empty() {
         coverage.insert("inconclusive".into(), json!({"run_level": inconclusive_reasons, "cases": merged.inconclusive}));
